@@ -4,10 +4,12 @@ from fractions import Fraction
 from harness.core import Rng, gz, gq, glist, Dec, num_close
 
 PID = "C12"
-VO = ["theories/Misc/Containers.vo", "theories/Misc/Containers_proofs.vo", "theories/Base/Flat.vo"]
+VO = ["theories/Misc/Containers.vo", "theories/Misc/Containers_proofs.vo", "theories/Base/Flat.vo",
+      "theories/Metrics/Disagg.vo", "theories/Metrics/Disagg_proofs.vo", "theories/Metrics/Disagg_ext.vo",
+      "theories/Metrics/Disagg_perm.vo"]
 PROPS_FILES = ["props/C12.v"]
 TRANSLATORS = []
-REQUIRES = ["From FL Require Import Num Flat ListX Containers."]
+REQUIRES = ["From FL Require Import Num Flat ListX Containers Disagg Disagg_ext."]
 SHARD = 100
 CHUNK = 1
 CASE_TIMEOUT = 600
@@ -17,7 +19,15 @@ LEVEL_TEXT = ("Proof (Coq) of the three halves of the property on a model of pos
               "(position_invariance; label alignment is shown to be a different function on the index schemes used), "
               "joint row permutation leaves the index and every group's count / weight sum / weighted value sum "
               "unchanged (perm_invariance), an injective renaming of group labels renames exactly the index entries "
-              "(relabel_equivariance). The property is about glue, so the deciding weight is the correspondence: every "
+              "(relabel_equivariance). The last two are ALSO proved on the real MetricFrame model of C01 "
+              "(Disagg.mf_by_group / mf_overall, any value / cell type and metric family): "
+              "C12_metricframe_perm_invariance (joint permutation of y_true, y_pred, every sample parameter and "
+              "feature column by an index list: by_group and overall are equal tables, for callables that are "
+              "invariant under joint permutation of their argument columns), C12_metricframe_relabel (strictly "
+              "monotone renaming of one sensitive feature's codes: the same table with that key component renamed) "
+              "and C12_metricframe_relabel_injective (any injective renaming: equal up to the order of the index); "
+              "the MetricFrame cases evaluate that model (Disagg_ext.apply_perm / perm_spec / perm_cols) on the "
+              "original, the permuted and the relabelled data against the implementation. The property is about glue, so the deciding weight is the correspondence: every "
               "entry point (MetricFrame, fairness metrics, the parity moments, ThresholdOptimizer fit+predict, "
               "GridSearch, ExponentiatedGradient) is run on the same data presented in container x index-label "
               "variants per argument (list, ndarray, Series, one-column DataFrame named 0 / named, dict of arrays; "
@@ -273,7 +283,7 @@ def impl(case):
         except Exception as e:
             res["perm"] = {"exc": f"{type(e).__name__}: {str(e)[:200]}"}
     if case["entry"] == "mf":
-        rl = {"a": "zeta", "b": "alpha", "c": "mid"}
+        rl = RELABEL
         try:
             res["relabel"] = {"ok": _run_entry(case, {}, rng, relabel=rl), "map": rl}
         except Exception as e:
@@ -287,9 +297,53 @@ def _codes(vals):
     return {v: i for i, v in enumerate(lv)}, lv
 
 
+RELABEL = {"a": "zeta", "b": "alpha", "c": "mid"}
+MF_METRICS = [("sr", 1, True), ("mp", 1, True), ("cnt", 0, False)]   # name, Disagg.metric_kind, weighted
+
+
+def _gname(s_):
+    return glist([ord(ch) for ch in s_], gz)
+
+
+def _mf_term(case):
+    """Disagg.mf_by_group / mf_overall on the positional data, on the jointly permuted data (permuted INSIDE
+    Coq with Disagg_ext.apply_perm / perm_spec / perm_cols) and on the data with relabelled sensitive feature"""
+    sf, cf = case["sf"], case["cf"]
+    scm, _ = _codes(sf)
+    rcm, _ = _codes([RELABEL[g] for g in sf])
+    w = glist(case["w"], gz)
+    ms = glist([f"(Build_metric_spec Z {_gname(nm)} {_gname(nm)} "
+                + (f"[(n_sample_weight, {w})]" if weighted else "[]") + ")" for nm, _, weighted in MF_METRICS])
+    kinds = glist([f"({_gname(nm)}, {gz(k)})" for nm, k, _ in MF_METRICS])
+    sfs = f"[({_gname('sensitive_feature_0')}, {glist([scm[g] for g in sf], gz)})]"
+    sfs_r = f"[({_gname('sensitive_feature_0')}, {glist([rcm[RELABEL[g]] for g in sf], gz)})]"
+    if cf:
+        ccm, _ = _codes(cf)
+        cfs = f"[({_gname('control_feature_0')}, {glist([ccm[g] for g in cf], gz)})]"
+    else:
+        cfs = "[]"
+    pi = "[" + "; ".join(str(p) for p in case["perm"]) + "]%nat"
+    return (f"(let yt := {glist(case['y'], gz)} in let yp := {glist(case['yp'], gz)} in let ms := {ms} in "
+            f"let sfs := {sfs} in let cfs := {cfs} in let pi := {pi} in let f := fnc {kinds} in "
+            f"let id := (fun z : Z => z) in "
+            f"enc_table (mf_by_group Z id ccell f yt yp ms sfs cfs) ++ enc_table (mf_overall Z id ccell f yt yp ms sfs cfs) "
+            f"++ enc_table (mf_by_group Z id ccell f (apply_perm pi yt) (apply_perm pi yp) (map (perm_spec pi) ms) "
+            f"(perm_cols pi sfs) (perm_cols pi cfs)) "
+            f"++ enc_table (mf_overall Z id ccell f (apply_perm pi yt) (apply_perm pi yp) (map (perm_spec pi) ms) "
+            f"(perm_cols pi sfs) (perm_cols pi cfs)) "
+            f"++ enc_table (mf_by_group Z id ccell f yt yp ms {sfs_r} cfs))")
+
+
 def term(case, out):
     if case["entry"] not in ("mf", "fm", "moment"):
         return None
+    t = _stats_term(case)
+    if case["entry"] == "mf":
+        t = f"({t}) ++ {_mf_term(case)}"
+    return t
+
+
+def _stats_term(case):
     sf, cf = case["sf"], case["cf"]
     keys = [(c, s) for c, s in zip(cf, sf)] if cf else [(s,) for s in sf]
     cm, lv = _codes(keys)
@@ -302,14 +356,44 @@ def term(case, out):
     g = glist([cm[k] for k in keys], gz)
     return (f"let rows := zip3 {g} {glist(val, gq)} {glist(w, gq)} in "
             f"enc_list (fun kv => enc_z (fst kv) ++ enc_nat (fst (snd kv)) ++ enc_q (fst (snd (snd kv))) ++ "
-            f"enc_q (snd (snd (snd kv)))) (by_group rows)")
+            f"enc_q (snd (snd (snd kv)))) (Containers.by_group rows)")
 
 
 def decode(case, zs):
     d = Dec(zs)
     items = d.list(lambda: (d.z(), d.nat(), d.q(), d.q()))
+    res = {"stats": [[g, c, ws, wv] for g, c, ws, wv in items]}
+    if case["entry"] == "mf":
+        from harness.props.c01 import _dtable
+        for k in ("by_group", "overall", "perm_by_group", "perm_overall", "relabel_by_group"):
+            res[k] = _dtable(d)
     d.done()
-    return {"stats": [[g, c, ws, wv] for g, c, ws, wv in items]}
+    return res
+
+
+def _model_canon(table, levels):
+    """Disagg table -> the sorted (key string, value) list of _canon_frame; levels = per key component the
+    sorted label list"""
+    out = []
+    if table is None:
+        return None
+    for key, row in table:
+        ks = "/".join(str(lv[c]) for c, lv in zip(key, levels))
+        for nm, _, _ in MF_METRICS:
+            v = float("nan") if row is None else row.get(nm)
+            if v == "nan":
+                v = float("nan")
+            out.append([(f"{nm}|{ks}" if key else nm), v])
+    return sorted(out, key=lambda kv: kv[0])
+
+
+def _canon_close(impl_items, model_items, tol):
+    if model_items is None or len(impl_items) != len(model_items):
+        return False
+    for (ki, vi), (km, vm) in zip(sorted(impl_items, key=lambda kv: kv[0]), model_items):
+        if ki != km or isinstance(vm, (str, list)) or not num_close(vi, vm, tol, tol):
+            return False
+    return True
 
 
 def _close_struct(a, b, tol=1e-9):
@@ -374,6 +458,31 @@ def compare(case, out, model):
                     not _close_struct(base["diff"], r["ok"]["diff"], tol):
                 v.append((f"{PID}/mf/relabel/not-equivariant", "renaming group labels by a bijection does more than "
                           "rename the index entries", "relabel_equivariance", "property"))
+    # MetricFrame: the real model (Disagg) on the original, the permuted (inside Coq) and the relabelled data
+    if model is not None and entry == "mf":
+        sf, cf = case["sf"], case["cf"]
+        slv = sorted(set(sf)); rlv = sorted(RELABEL[g] for g in set(sf)); clv = sorted(set(cf)) if cf else None
+        glv = ([clv] if cf else []) + [slv]
+        grl = ([clv] if cf else []) + [rlv]
+        olv = [clv] if cf else []
+        checks = [("by_group", base["by_group"], model["by_group"], glv, "by_group equals Disagg.mf_by_group"),
+                  ("overall", base["overall"], model["overall"], olv, "overall equals Disagg.mf_overall")]
+        if "ok" in out.get("perm", {}):
+            checks += [("perm_by_group", out["perm"]["ok"]["by_group"], model["perm_by_group"], glv,
+                        "by_group of the permuted data equals mf_by_group of the data permuted by apply_perm"),
+                       ("perm_overall", out["perm"]["ok"]["overall"], model["perm_overall"], olv,
+                        "overall of the permuted data equals mf_overall of the data permuted by apply_perm")]
+        if "ok" in out.get("relabel", {}):
+            checks.append(("relabel_by_group", out["relabel"]["ok"]["by_group"], model["relabel_by_group"], grl,
+                           "by_group of the relabelled data equals mf_by_group with the renamed codes"))
+        for obs, got, mt, lv, oracle in checks:
+            if not _canon_close(got, _model_canon(mt, lv), tol):
+                v.append((f"{PID}/mf/{obs}/differs-from-metricframe-model",
+                          f"implementation {got} vs model {_model_canon(mt, lv)}", oracle, "property"))
+                break
+        if model["perm_by_group"] != model["by_group"] or model["perm_overall"] != model["overall"]:
+            v.append((f"{PID}/harness/model-perm", "the model itself is not permutation invariant on this input "
+                      "(contradicts C12_metricframe_perm_invariance)", "theorem", "correspondence"))
     # baseline vs Coq model (group statistics from positional values)
     if model is not None:
         sf, cf = case["sf"], case["cf"]
